@@ -176,47 +176,53 @@ int fork_collect(void (*fn)(void *arg, int fd), void *arg, Buf *out, int *status
 }
 
 /* ---------------- reference runs ---------------- */
-static Ref refs[4096]; static int nrefs;
-Ref *ref_lookup(const char *prog, int tok) {
-    for (int i = 0; i < nrefs; i++) if (refs[i].tok == tok && strcmp(refs[i].prog, prog) == 0) return &refs[i];
+static Ref refs[8192]; static int nrefs;
+Ref *ref_lookup_key(const char *key) {
+    for (int i = 0; i < nrefs; i++) if (strcmp(refs[i].key, key) == 0) return &refs[i];
     return NULL;
 }
-typedef struct RefArg { Module *m; } RefArg;
+Ref *ref_lookup(const char *prog, int tok) { char k[64]; snprintf(k, sizeof k, "%s.%d", prog, tok); return ref_lookup_key(k); }
+typedef struct RefArg { const uint8_t *d; size_t n; } RefArg;
 static void ref_child(void *a, int fd) {
     RefArg *ra = a;
-    sim_reset(); default_knobs(); sim_seed(1);
+    sim_reset(); default_knobs(); K.max_blocks = 60000000; sim_seed(1);
     Buf out = {0}, err = {0};
-    simfs_put("/sim/ref.nvm", ra->m->d, ra->m->n);
+    simfs_put("/sim/ref.nvm", ra->d, ra->n);
     static char *av[] = { "nano_vm", "/sim/ref.nvm", NULL };
     SimProc *p = sim_spawn("ref", "nano_vm", 2, av, &out, &err, 0);
     int rc = sim_run();
-    uint32_t hdr[5] = { (uint32_t)out.len, (uint32_t)err.len, (uint32_t)p->status, (uint32_t)(rc == 0 && !p->alive), (uint32_t)vm_instrs };
+    uint32_t hdr[6] = { (uint32_t)out.len, (uint32_t)err.len, (uint32_t)p->status, (uint32_t)(rc == 0 && !p->alive), (uint32_t)vm_instrs, (uint32_t)deser_ok };
     ssize_t w = __real_write(fd, hdr, sizeof hdr);
     if (out.len) w = __real_write(fd, out.d, out.len);
     if (err.len) w = __real_write(fd, err.d, err.len);
     (void)w;
 }
-Ref *ref_get(const char *prog, int tok) {
-    Ref *r = ref_lookup(prog, tok);
+Ref *ref_get_blob(const char *key, const uint8_t *d, size_t n) {
+    Ref *r = ref_lookup_key(key);
     if (r) return r;
-    Module *m = corpus_find(prog, tok);
-    if (!m) return NULL;
+    if (nrefs == 8192) return NULL;
     r = &refs[nrefs++]; memset(r, 0, sizeof *r);
-    snprintf(r->prog, sizeof r->prog, "%s", prog); r->tok = tok;
-    RefArg ra = { m }; Buf o = {0}; int st = 0; char role[48];
+    snprintf(r->key, sizeof r->key, "%s", key);
+    RefArg ra = { d, n }; Buf o = {0}; int st = 0; char role[48];
     fork_collect(ref_child, &ra, &o, &st, role, sizeof role, NULL);
-    if (WIFEXITED(st) && WEXITSTATUS(st) == 0 && o.len >= 20) {
-        uint32_t hdr[5]; memcpy(hdr, o.d, 20);
-        if (o.len == 20 + (size_t)hdr[0] + hdr[1]) {
-            buf_put(&r->out, o.d + 20, hdr[0]); buf_put(&r->err, o.d + 20 + hdr[0], hdr[1]);
-            r->status = (int)hdr[2]; r->valid = hdr[3] != 0; r->instrs = hdr[4];
+    if (WIFEXITED(st) && WEXITSTATUS(st) == 0 && o.len >= 24) {
+        uint32_t hdr[6]; memcpy(hdr, o.d, 24);
+        if (o.len == 24 + (size_t)hdr[0] + hdr[1]) {
+            buf_put(&r->out, o.d + 24, hdr[0]); buf_put(&r->err, o.d + 24 + hdr[0], hdr[1]);
+            r->status = (int)hdr[2]; r->valid = hdr[3] != 0; r->instrs = hdr[4]; r->deser_ok = hdr[5] != 0;
         }
     } else {
         /* the standalone VM itself crashed on this module: no reference (callers skip) */
-        r->valid = false; r->status = st ? st : -1;
+        r->valid = false; r->crashed = true; r->status = st ? st : -1;
     }
     buf_free(&o);
     return r;
+}
+Ref *ref_get(const char *prog, int tok) {
+    Module *m = corpus_find(prog, tok);
+    if (!m) return NULL;
+    char k[64]; snprintf(k, sizeof k, "%s.%d", prog, tok);
+    return ref_get_blob(k, m->d, m->n);
 }
 
 /* ---------------- compile subcommand ---------------- */
